@@ -160,8 +160,13 @@ func runRoundTrip(c *harness.Ctx) harness.Result {
 		case "save":
 			q = url.Values{}
 			for _, k := range keys {
-				if r.Intn(3) == 0 {
+				switch r.Intn(8) {
+				case 0, 1, 2:
 					q.Set(k, paramPool[k][r.Intn(len(paramPool[k]))])
+				case 3:
+					if r.Intn(3) == 0 {
+						q.Set(k, "") // present but empty: the option is left as it is in the session
+					}
 				}
 			}
 			bad := r.Intn(8) == 0
